@@ -887,6 +887,87 @@ func (e *env) insertChainTwice() {
 	}
 }
 
+// hiBits: big.Int header fields with bits above 2^64 set so that the low 64 bits are those of a valid value: wherever the code
+// narrows a field (Number.Uint64(), Time.Uint64(), a uint64 comparison) the narrowed value looks right, only the
+// full-precision rule can reject.  Number: parent+1+k*2^64; Time: t+k*2^64; Difficulty: expected+k*2^64.
+func pow2(n uint) *big.Int { return new(big.Int).Lsh(big.NewInt(1), n) }
+
+var hiBits = []struct {
+	name string
+	f    func(h *types.Header)
+}{
+	{"hi/number+2^64", func(h *types.Header) { h.Number = new(big.Int).Add(h.Number, pow2(64)) }},
+	{"hi/number+2*2^64", func(h *types.Header) { h.Number = new(big.Int).Add(h.Number, pow2(65)) }},
+	{"hi/number+2^63*2^64", func(h *types.Header) { h.Number = new(big.Int).Add(h.Number, pow2(127)) }},
+	{"hi/number+2^191*2^64", func(h *types.Header) { h.Number = new(big.Int).Add(h.Number, pow2(255)) }},
+	{"hi/time+2^64", func(h *types.Header) { h.Time = new(big.Int).Add(h.Time, pow2(64)) }},
+	{"hi/time+2^63*2^64", func(h *types.Header) { h.Time = new(big.Int).Add(h.Time, pow2(127)) }},
+	{"hi/diff+2^64", func(h *types.Header) { h.Difficulty = new(big.Int).Add(h.Difficulty, pow2(64)) }},
+	{"hi/diff+2^191*2^64", func(h *types.Header) { h.Difficulty = new(big.Int).Add(h.Difficulty, pow2(255)) }},
+}
+
+// highBits: every high-bit mutation, deterministically, as header and as uncle header (verifyHeader), inside batches
+// at the first, second, a middle and the last position (VerifyHeaders workers, collector, one-by-one VerifyHeader), and as
+// the uncle of a block (VerifyUncles); headerChainImport applies them through ValidateHeaderChain.
+func (e *env) highBits() {
+	c := e.c
+	now := time.Now().Unix()
+	cfgs := append([]struct {
+		name string
+		cfg  *params.ChainConfig
+	}{}, builtin...)
+	cfgs = append(cfgs, struct {
+		name string
+		cfg  *params.ChainConfig
+	}{"mainnet+hf8", customCfg(61717561, map[int]int64{1: 3600, 2: 7200, 3: 13026, 4: 21800, 5: 22800, 6: 36000, 7: 36050, 8: 40000, 9: 40100})})
+	for ci, nc := range cfgs {
+		cfg := nc.cfg
+		number := int64(50 + 7*ci)
+		if nc.name == "mainnet" || nc.name == "mainnet+hf8" {
+			number = 40200
+		}
+		for _, hb := range hiBits {
+			// (a) verifyHeader, header and uncle
+			gp := baseHeader(c.Rng, cfg, number-2, now-5000, big.NewInt(46039386+int64(c.Rng.Intn(1<<20))), common.Hash{7}, 4712388)
+			p := child(c.Rng, cfg, gp, nil, 100)
+			ch := newChain(cfg)
+			ch.addHeader(gp)
+			ch.addHeader(p)
+			for _, uncle := range []bool{false, true} {
+				h := child(c.Rng, cfg, p, gp, 100)
+				hb.f(h)
+				h.Version = cfg.GetBlockVersion(h.Number)
+				e.checkHeader(hb.name+map[bool]string{false: "", true: "/uncle"}[uncle], ch, h, p, gp, uncle)
+			}
+			// (b) batches: position 0, 1, middle, last
+			for _, pos := range []int{0, 1, 3, 5} {
+				if !c.Thorough() && (ci+pos)%2 == 1 {
+					continue
+				}
+				base, seg := buildChain(c.Rng, cfg, number, 6, now)
+				hb.f(seg[pos])
+				seg[pos].Version = cfg.GetBlockVersion(seg[pos].Number)
+				for j := pos + 1; j < len(seg); j++ {
+					seg[j].ParentHash = seg[j-1].Hash()
+				}
+				bch := newChain(cfg)
+				for _, b := range base {
+					bch.addHeader(b)
+				}
+				seals := make([]bool, len(seg))
+				seals[len(seg)-1] = true
+				e.checkBatch(hb.name+fmt.Sprintf("@%d", pos), nc.name, bch, seg, seals, e.eng, 0)
+			}
+			// (c) as the uncle of a block
+			all, blocks, hdr, us := e.treeAt(c.Rng, cfg, number, 1, now)
+			if len(us) == 1 {
+				hb.f(us[0])
+				e.checkUncles(hb.name+"/in-block", cfg, all, blocks, hdr, us, false)
+			}
+		}
+	}
+}
+
 // ---------------------------------------------------------------- header-first import: ValidateHeaderChain
 
 // recEngine records the seal sample ValidateHeaderChain hands to VerifyHeaders
@@ -925,6 +1006,10 @@ func (e *env) headerChainImport() {
 		{"gasused=limit+1", func(h, p *types.Header) { h.GasUsed = h.GasLimit + 1 }},
 		{"gaslimit=parent+bound", func(h, p *types.Header) { h.GasLimit = p.GasLimit + p.GasLimit/1024 }},
 		{"gaslimit=4999", func(h, p *types.Header) { h.GasLimit = 4999; h.GasUsed = 0 }},
+	}
+	for _, hb := range hiBits {
+		f := hb.f
+		hmuts = append(hmuts, hmut{hb.name, func(h, p *types.Header) { f(h) }})
 	}
 	nsc := c.Scale(36, 400)
 	for it := 0; it < nsc; it++ {
@@ -969,6 +1054,7 @@ func (e *env) headerChainImport() {
 				mu := hmuts[c.Rng.Intn(len(hmuts))]
 				mname = mu.name
 				mu.f(headers[badIdx], parentOf(badIdx))
+				headers[badIdx].Version = cfg.GetBlockVersion(headers[badIdx].Number)
 				relink(badIdx)
 			case "broken-link":
 				if n >= 2 {
@@ -1121,6 +1207,122 @@ func (e *env) headerChainImport() {
 			rep["seals"] = sb
 			c.Violate(fmt.Sprintf("headerchain-verdict/%s/%s/n=%d/freq=%d/bad=%d/%s", cfgTok(cfg), kind+mname, n, freq, badIdx, verdict),
 				"header-first import: the verdict of InsertHeaderChain differs from the first header that breaks a rule or whose sampled seal fails", rep)
+		}
+	}
+}
+
+// headerChainKnownBad: a batch that overlaps the local chain (its first k headers are already stored, k in 1, 2, 5) with
+// exactly one rule-violating header at EVERY later position — in particular within the last k positions — for every rule
+// in turn and checkFreq 1, 2, 100, through BlockChain.InsertHeaderChain.  VerifyHeaders emits one result per header, known
+// or not; ValidateHeaderChain must consume one per header.  Oracle: rejected at the bad header's index, the bad header is
+// not stored and the head does not move past the last good header; model: validate_with_seals (one result per header).
+func (e *env) headerChainKnownBad() {
+	c := e.c
+	type hmut struct {
+		name string
+		f    func(h, p *types.Header)
+	}
+	hmuts := []hmut{
+		{"extra=33", func(h, p *types.Header) { h.Extra = make([]byte, 33) }},
+		{"time=parent", func(h, p *types.Header) { h.Time = new(big.Int).Set(p.Time) }},
+		{"diff+1", func(h, p *types.Header) { h.Difficulty = new(big.Int).Add(h.Difficulty, big.NewInt(1)) }},
+		{"gaslimit=2^63", func(h, p *types.Header) { h.GasLimit = 1 << 63 }},
+		{"gasused=limit+1", func(h, p *types.Header) { h.GasUsed = h.GasLimit + 1 }},
+		{"gaslimit=parent+bound", func(h, p *types.Header) { h.GasLimit = p.GasLimit + p.GasLimit/1024 }},
+		{"gaslimit=4999", func(h, p *types.Header) { h.GasLimit = 4999; h.GasUsed = 0 }},
+		{"hi/number+2^64", func(h, p *types.Header) { hiBits[0].f(h) }},
+		{"hi/diff+2^64", func(h, p *types.Header) { hiBits[6].f(h) }},
+	}
+	cfg := params.TestChainConfig
+	const n = 8
+	it := 0
+	for _, known := range []int{1, 2, 5} {
+		for badIdx := known; badIdx < n; badIdx++ {
+			for _, freq := range []int{1, 2, 100} {
+				inTail := badIdx >= n-known
+				if !c.Thorough() && !inTail && (it+badIdx+freq)%3 != 0 {
+					it++
+					continue
+				}
+				mu := hmuts[it%len(hmuts)]
+				it++
+				var (
+					verdict          string
+					seals            []bool
+					headers          []*types.Header
+					genesisH         *types.Header
+					stored           bool
+					headNo           uint64
+					headerInsertedOK = true
+				)
+				pan, pv := vh.CatchPanic(func() {
+					db := aquadb.NewMemDatabase()
+					gspec := &core.Genesis{Config: cfg, Difficulty: big.NewInt(46039386)}
+					genesis := gspec.MustCommit(db)
+					blocks, _ := core.GenerateChain(context.Background(), cfg, genesis, aquahash.NewFaker(), db, n, nil)
+					for _, b := range blocks {
+						headers = append(headers, b.Header())
+					}
+					db2 := aquadb.NewMemDatabase()
+					gspec.MustCommit(db2)
+					rec := &recEngine{Aquahash: aquahash.NewFaker()}
+					bc, err := core.NewBlockChain(context.Background(), db2, nil, cfg, rec, vm.Config{})
+					if err != nil {
+						verdict = "setup " + err.Error()
+						return
+					}
+					defer bc.Stop()
+					genesisH = bc.GetHeaderByNumber(0)
+					if _, err := bc.InsertHeaderChain(headers[:known], 1); err != nil {
+						verdict = "setup prefix: " + err.Error()
+						return
+					}
+					mu.f(headers[badIdx], headers[badIdx-1])
+					headers[badIdx].Version = cfg.GetBlockVersion(headers[badIdx].Number)
+					for j := badIdx + 1; j < n; j++ {
+						headers[j].ParentHash = headers[j-1].Hash()
+					}
+					idx, err := bc.InsertHeaderChain(headers, freq)
+					seals = rec.seals
+					if err == nil {
+						verdict = "ok"
+					} else if strings.Contains(err.Error(), "non contiguous insert") {
+						verdict = "noncontiguous"
+					} else {
+						verdict = fmt.Sprintf("%d %s", idx, classify(err))
+					}
+					stored = bc.GetHeaderByHash(headers[badIdx].Hash()) != nil
+					headNo = bc.CurrentHeader().Number.Uint64()
+					_ = headerInsertedOK
+				})
+				if pan {
+					verdict = fmt.Sprintf("panic %v", pv)
+				}
+				c.Eval(fmt.Sprintf("headerchain-known%d/bad@%d/tail=%v", known, badIdx, inTail), "")
+				rep := map[string]string{"config": cfgTok(cfg), "headers": fmt.Sprint(n), "known_prefix": fmt.Sprint(known), "bad_index": fmt.Sprint(badIdx), "rule_broken": mu.name,
+					"checkFreq": fmt.Sprint(freq), "verdict": verdict, "bad_header_stored": fmt.Sprint(stored), "head_number_after": fmt.Sprint(headNo)}
+				if pan || strings.HasPrefix(verdict, "setup") {
+					c.Violate("headerchain-import/"+verdict, "header-first import failed unexpectedly", rep)
+					continue
+				}
+				sb := ""
+				for _, b := range seals {
+					if b {
+						sb += "1"
+					} else {
+						sb += "0"
+					}
+				}
+				chainHs := append([]*types.Header{genesisH}, headers[:known]...)
+				cas := fmt.Sprintf("vchain %s %d %s %s %s", cfgTok(cfg), time.Now().Unix(), hdrsTok(chainHs, noSeal), hdrsTok(headers, noSeal), sb)
+				c.Correspond("InsertHeaderChain/ValidateHeaderChain~validate_with_seals", cas, verdict, e.m.Ask(cas))
+				got := strings.SplitN(verdict, " ", 2)[0]
+				if got != fmt.Sprint(badIdx) || stored || headNo > uint64(badIdx) {
+					rep["expected"] = fmt.Sprintf("rejected at index %d; the bad header is not stored; head stays at or below #%d", badIdx, badIdx)
+					c.Violate(fmt.Sprintf("headerchain-known-prefix-bad-header/known=%d/bad=%d/n=%d/freq=%d/%s/%s", known, badIdx, n, freq, mu.name, verdict),
+						"header-first import of a batch overlapping the local chain: a rule-violating header after the known prefix is not rejected at its position (accepted / stored / becomes head)", rep)
+				}
+			}
 		}
 	}
 }
@@ -1299,6 +1501,10 @@ func muts(r *vh.RNG) []mut {
 		{"gaslimit=5000", func(h, p *types.Header, now int64) { h.GasLimit = 5000; h.GasUsed = 0 }},
 		{"number=parent", func(h, p *types.Header, now int64) { h.Number = new(big.Int).Set(p.Number) }},
 		{"number=parent+2", func(h, p *types.Header, now int64) { h.Number = new(big.Int).Add(p.Number, big.NewInt(2)) }},
+		{"hi/number+2^64", func(h, p *types.Header, now int64) { hiBits[0].f(h) }},
+		{"hi/number+2^191*2^64", func(h, p *types.Header, now int64) { hiBits[3].f(h) }},
+		{"hi/time+2^64", func(h, p *types.Header, now int64) { hiBits[4].f(h) }},
+		{"hi/diff+2^64", func(h, p *types.Header, now int64) { hiBits[6].f(h) }},
 	}
 }
 
@@ -2126,8 +2332,10 @@ func main() {
 	t0 := time.Now()
 	e.insertChainTwice()
 	c.Note("insertChainTwice took %.1fs", time.Since(t0).Seconds())
+	e.highBits()
 	t1 := time.Now()
 	e.headerChainImport()
+	e.headerChainKnownBad()
 	c.Note("headerChainImport took %.1fs", time.Since(t1).Seconds())
 	e.versions()
 	e.difficultyLattice()
